@@ -59,8 +59,9 @@ package rewriter
 
 //@ pred KindOK(k int) := kindTrival <= k && k <= kindFor && k != kindDelay
 //@ pred BlockInv(b *block) := BBlock(b) != nil && 0 <= BLen(b) && BLen(b) == BKLen(b)
-//@        && (forall j: Int :: 0 <= j && j < BLen(b) ==> KindOK(BKind(b, j)) && !isnil(BStmt(b, j)))
+//@        && (forall j: Int :: 0 <= j && j < BLen(b) ==> KindOK(BKind(b, j)) && !isnil(BStmt(b, j)) && CleanStmt(BStmt(b, j)))
 //@        && (forall j: Int :: 0 <= j && j < BLen(b) - 1 ==> BKind(b, j) < kindNormal)
+//@        && (forall j: Int :: 0 <= j && j < BLen(b) && BKind(b, j) >= kindNormal ==> isa(BStmt(b, j), ReturnStmt))
 //@        && (BFrozen(b) ==> BLen(b) > 0 && BKind(b, BLen(b) - 1) >= kindNormal)
 //@ pred PushOK(b *block) := !BFrozen(b) && (BLen(b) == 0 || BKind(b, BLen(b) - 1) < kindNormal)
 
@@ -91,8 +92,10 @@ package rewriter
 
 //@ func (b *block) push(stmt, kind)
 //@   requires BlockInv(b) && BChecked(b) && PushOK(b)
-//@   requires KindOK(kind) && !isnil(stmt)
-//@   requires[no-residual-yield] !ResidualYield(stmt)     -- C12: nothing containing a yield is emitted as native code
+//@   requires KindOK(kind) && !isnil(stmt) && (kind >= kindNormal ==> isa(stmt, ReturnStmt))
+//@   requires[no-residual-yield] !ResidualYield(stmt) || CleanStmt(stmt)     -- C12: nothing containing a yield is emitted as native code
+//@   ghost !ResidualYield(stmt) ==> CleanStmt(stmt)      -- CleanStmt is the ghost mark "passed the residual-yield check when it was pushed"; push is the only place that sets it
+//@   ensures[marks-clean] CleanStmt(stmt)
 //@   ensures[len] BLen(b) == old(BLen(b)) + 1 && BKLen(b) == old(BKLen(b)) + 1
 //@   ensures[last] BStmt(b, old(BLen(b))) == stmt && BKind(b, old(BLen(b))) == kind
 //@   ensures[prefix] forall j: Int :: 0 <= j && j < old(BLen(b)) ==> BStmt(b, j) == old(BStmt(b, j)) && BKind(b, j) == old(BKind(b, j))
@@ -113,7 +116,7 @@ package rewriter
 //@ func (b *block) pop() (stmt, kind)
 //@   requires BlockInv(b) && BLen(b) > 0
 //@   ensures[len] BLen(b) == old(BLen(b)) - 1 && BKLen(b) == old(BKLen(b)) - 1
-//@   ensures[value] stmt == old(BStmt(b, BLen(b) - 1)) && kind == old(BKind(b, BLen(b) - 1))
+//@   ensures[value] stmt == old(BStmt(b, BLen(b) - 1)) && kind == old(BKind(b, BLen(b) - 1)) && CleanStmt(stmt) && !isnil(stmt) && KindOK(kind) && (kind >= kindNormal ==> isa(stmt, ReturnStmt))
 //@   ensures[prefix] forall j: Int :: 0 <= j && j < BLen(b) ==> BStmt(b, j) == old(BStmt(b, j)) && BKind(b, j) == old(BKind(b, j))
 //@   ensures[flags] !BFrozen(b) && BChecked(b) == old(BChecked(b)) && BBlock(b) == old(BBlock(b)) && BOwner(b) == old(BOwner(b))
 //@   ensures[inv] BlockInv(b) && PushOK(b)
@@ -502,7 +505,6 @@ package rewriter
 //@   ensures[same-or-fresh] res == children || (fresh(res) && BLen(res) == 0 && BOwner(res) == kindDelay && EndsOK(children))
 //@   ensures[ready] res != nil && Ready(res)
 //@   ensures[children] BlockInv(children) && ATBL(children) && BOwner(children) == old(BOwner(children))
-//@   assume-obligation call[block.push].requires[no-residual-yield] at `children.pop()` because the statement passed the same check when it was first pushed, and its initialiser fields have not been written since (A-tree)
 //@   ensures[local:first-half-closed] EndsOK(current)
 //@   modifies BLen(children), BKLen(children), BStmt(children), BKind(children), BChecked(children), BFrozen(children)
 
@@ -544,6 +546,7 @@ package rewriter
 //@   ensures[res-last] res != nil && isLast && res == children && BOwner(children) == kindFor ==> EndsOK(children) || AllTrivial(children)
 //@   ensures[local:callback-closed] res == nil && following != nil && BOwner(following) == kindDelay ==> EndsOK(following)
 //@   ensures[yield-closes] IsCallStmtOf(stmt, r.rewriter.yieldFunc) ==> EndsOK(children) && (isLast ==> res == nil)
+//@        && BLen(children) > 0 && BKind(children, BLen(children) - 1) == kindYield
 //@   modifies BLen(children), BKLen(children), BStmt(children), BKind(children), BChecked(children), BFrozen(children), AST
 
 //@ func (r *yieldRewriter) lastSwitchInLoop(isLast, children) (res)
@@ -589,8 +592,6 @@ package rewriter
 //@   requires (!isnil(stmt.Init) ==> ProperStmt(stmt.Init) && !isa(stmt.Init, BlockStmt)) && (!isnil(stmt.Post) ==> ProperStmt(stmt.Post) && !isa(stmt.Post, BlockStmt))
 //@   requires !IsDefine(stmt.Init) && !IsDefine(stmt.Post)
 //@   requires[yield-stmt] HasYield(stmt.Post) ==> IsCallStmtOf(stmt.Post, r.rewriter.yieldFunc)
-//@   assume-obligation call[assert].requires at `instanceof[` because A-yield-stmt: a simple statement that contains a yield is a call statement of co.Yield, so rewriting a yielding post statement leaves a return statement last
-//@   assume-obligation call[block.lastStmt].requires because A-yield-stmt (same)
 //@   ensures[children] BlockInv(children) && BOwner(children) == old(BOwner(children)) && Shape(children)
 //@   ensures[res] res != nil && (res == children || fresh(res)) && BlockInv(res) && ATBL(res) && BodyKind(BOwner(res))
 //@        && (res != children ==> BOwner(res) == kindDelay && EndsOK(children))
